@@ -85,9 +85,9 @@ def convertWith (pe : ConvOpts → CEntry → Action) (o : ConvOpts) (es : List 
       let link := if fmt x.mode = S_IFLNK then x.link else none
       if fmt x.mode = S_IFLNK ∧ link.isNone then none                      -- `read_link` fails: no target
       else
-      match pe o ⟨x.name, x.mode, x.uid, x.gid, x.mtime, x.hardLink, link⟩ with
+      match pe o ⟨x.name, x.mode, x.uid, x.gid, x.mtime, x.hardLink, link, x.devMajor, x.devMinor⟩ with
       | .skip => some (t, devs)
-      | .root e => if e.hardLink ∨ fmt e.mode ≠ S_IFDIR then none else some (t, devs)
+      | .root e => if e.hardLink ∨ fmt e.mode ≠ S_IFDIR ∨ e.uid > 0xFFFFFFFF ∨ e.gid > 0xFFFFFFFF then none else some (t, devs)
       | .node e => match addGeneric o t e with
         | none => none
         | some t' => some (t', devs ++ [(Sqfs.Path.splitSlash e.name, x.devMajor, x.devMinor)])) (some ([], []))
@@ -140,7 +140,7 @@ def step (line : String) : String :=
     | .eof => "eof"
     | .err => "err"
     | .ok d rest => "ok " ++ showDecoded d ++ s!" consumed={s.length - rest.length}"
-  | ["deccur", h] => withHex h fun s => match readHeaderCur s with
+  | ["decx", r, k, h] => withHex h fun s => match readHeaderWith { rejectOversizedMap := r = "1", xattrKeepOrder := k = "1" } s with
     | .eof => "eof"
     | .err => "err"
     | .ok d rest => "ok " ++ showDecoded d ++ s!" consumed={s.length - rest.length}"
@@ -158,7 +158,8 @@ def step (line : String) : String :=
         | some (t, devs) => "ok " ++ ";".intercalate (t.map (describeNode devs))
     | _, _, _, _, _, _ => "bad-op"
   | ["iter", h] => withHex h fun s => let (es, e) := iterate s; showIter es e
-  | ["itercur", h] => withHex h fun s => let (es, e) := iterateCur s; showIter es e
+  | ["iterx", r, k, h] => withHex h fun s =>
+    let (es, e) := iterateWith { rejectOversizedMap := r = "1", xattrKeepOrder := k = "1" } s; showIter es e
   | _ => "bad-op"
 
 def run (_args : List String) : IO Unit := do
